@@ -13,6 +13,8 @@ import PxModel.DrvReverse
 import PxModel.DrvForward
 import PxModel.DrvConnect
 import PxModel.DrvIntercept
+import PxModel.DrvModes
+import PxModel.DrvPersist
 /-
   Line protocol driver: one operation per input line, one canonical result
   line per input line.  First token selects the model.
@@ -37,6 +39,8 @@ def dispatch (line : String) : String :=
   | "conn" :: args => Connect.drv args
   | "first" :: args => First.drv args
   | "tls" :: args => Intercept.drv args
+  | "modes" :: args => Modes.drv args
+  | "persist" :: args => Persist.drv args
   | _ => "bad-op"
 
 partial def loop (h : IO.FS.Stream) (out : IO.FS.Stream) : IO Unit := do
